@@ -75,3 +75,81 @@ Theorem C10_member_types_exist : forall T d m, wf_descr_all T = true -> In d (t_
   exists d', nthZ (t_descrs T) (m_type m) = Some d'.
 Proof. exact member_types_exist. Qed.
 Print Assumptions C10_member_types_exist.
+
+(* ================= round 2: parameterized types (Fix/ParamSpec.v) and the per-type file set (Fix/FileSet.v) =================
+   Tied to the C per run: checks/c10.py reads the specialization index of every instantiation site out of the generated
+   headers (<Template>_<line>P<k>) and the "Compiled <stem>.c" lines of asn1c, and compares them with
+   ParamSpec.spec_indices / FileSet.file_stems computed by the extracted model. *)
+From A1 Require Import Fix.Printer Fix.NameClash Fix.ParamSpec Fix.ParamSpecProofs Fix.FileSet Fix.FileSetProofs.
+
+(* -- asn1p_expr_compare (as compare_specializations uses it) says "equal" exactly when the two actual parameter lists
+      agree after erasing subtype constraints and nested actual parameter lists, and no value set is compared -- *)
+Theorem C10_spec_compare_characterised : forall a b, ecmp a b = CEq <-> key a = key b /\ novs (key a) = true.
+Proof. exact ecmp_eq_iff. Qed.
+Print Assumptions C10_spec_compare_characterised.
+
+(* -- the lookup loop of asn1f_parameterization_fork never reaches the unimplemented constraint comparison
+      (the "terminates by exit" clause, for this loop): every reference list free of value sets gets its indices
+      ([stable]: no value set and no value NULL in a compared position) -- *)
+Theorem C10_spec_lookup_total : forall refs, Forall (fun a => stable (key a) = true) refs ->
+  exists ks, spec_indices refs = Some ks /\ length ks = length refs.
+Proof. exact assign_total. Qed.
+Print Assumptions C10_spec_lookup_total.
+
+(* -- THE decision: two references to a template share a C type iff their actual parameter lists have the same key;
+      indices are dense in order of first use -- *)
+Theorem C10_spec_index_partition : forall refs ks, Forall (fun a => stable (key a) = true) refs -> spec_indices refs = Some ks ->
+  length ks = length refs /\
+  forall i j a b ki kj, nth_error refs i = Some a -> nth_error refs j = Some b -> nth_error ks i = Some ki -> nth_error ks j = Some kj ->
+    (ki = kj <-> key a = key b).
+Proof. exact spec_index_partition. Qed.
+Print Assumptions C10_spec_index_partition.
+
+Theorem C10_spec_index_dense : forall refs ks i k, spec_indices refs = Some ks -> nth_error ks i = Some k -> (k <= i)%nat.
+Proof. exact spec_index_dense. Qed.
+Print Assumptions C10_spec_index_dense.
+
+(* -- resolving the same reference again (the fixer does, several times per reference) changes nothing -- *)
+Theorem C10_spec_fork_idempotent : forall tbl a tbl' k, tbl_ok tbl -> stable (key a) = true -> fork tbl a = Some (tbl', k) ->
+  fork tbl' a = Some (tbl', k).
+Proof. exact fork_idempotent. Qed.
+Print Assumptions C10_spec_fork_idempotent.
+
+(* ... but not for the value NULL: the table stores a clone, asn1p_value_clone turns NULL into "no value", the second
+   lookup of the same reference forks again (finding C10-param-null-value-respecialized, module PaNullValue) *)
+Theorem C10_spec_fork_idempotent_null_refuted :
+  exists tbl' k, fork [] null_actual = Some (tbl', k) /\ fork tbl' null_actual <> Some (tbl', k).
+Proof. exact fork_idempotent_null_refuted. Qed.
+Print Assumptions C10_spec_fork_idempotent_null_refuted.
+
+(* -- the defect of the unchanged tree, stated: constraints and nested parameter lists never influence the index ... -- *)
+Theorem C10_spec_ignores_constraints : forall refs, spec_indices (map key refs) = spec_indices refs.
+Proof. exact spec_ignores_constraints. Qed.
+Print Assumptions C10_spec_ignores_constraints.
+
+(* ... so "different actual parameters, different C type" is refuted: P {INTEGER (0..7)} / P {INTEGER (0..255)} and
+   P {Q {BOOLEAN}} / P {Q {INTEGER}} are one specialization (finding C10-param-actuals-compared-shallowly; replayed on the
+   C by the modules PaTwice and PaNestedActual of every run) *)
+Theorem C10_spec_distinct_constraints_refuted : exists a b, a <> b /\ spec_indices [wrap [a]; wrap [b]] = Some [0; 0]%nat.
+Proof. exact distinct_constraints_share_refuted. Qed.
+Print Assumptions C10_spec_distinct_constraints_refuted.
+
+Theorem C10_spec_distinct_nested_refuted : exists a b, a <> b /\ spec_indices [wrap [a]; wrap [b]] = Some [0; 0]%nat.
+Proof. exact distinct_nested_actuals_share_refuted. Qed.
+Print Assumptions C10_spec_distinct_nested_refuted.
+
+(* -- the per-type files: on a module list asn1c accepts, whose names are ASN.1 names, no two top-level expressions are
+      saved under the same stem (nothing is overwritten, every #include "<stem>.h" has one referent) -- *)
+Theorem C10_file_name_injective : forall ms e1 e2, clean ms = true -> In e1 (flat ms) -> In e2 (flat ms) ->
+  cname ms e1 = cname ms e2 -> e1 = e2.
+Proof. exact cname_injective. Qed.
+Print Assumptions C10_file_name_injective.
+
+Theorem C10_file_stems_nodup : forall ms stems, clean (map to_nmod ms) = true -> file_stems ms = Some stems -> NoDup stems.
+Proof. exact file_stems_nodup. Qed.
+Print Assumptions C10_file_stems_nodup.
+
+(* -- and the module prefix cannot be dropped: wherever it is added the bare identifier belongs to another expression too -- *)
+Theorem C10_file_prefix_necessary : forall ms e, marked ms e = true -> exists e', In e' (flat ms) /\ e' <> e /\ snd e' = snd e.
+Proof. exact prefix_necessary. Qed.
+Print Assumptions C10_file_prefix_necessary.
